@@ -53,7 +53,7 @@ func main() {
 		if len(args) != 2 {
 			usage()
 		}
-		P, err := loadProgram(*repo, *verif+"/harness")
+		P, err := loadProgram(*repo, *verif+"/harness", args[0])
 		if err != nil {
 			fmt.Fprintln(os.Stderr, "load:", err)
 			os.Exit(2)
